@@ -23,6 +23,14 @@ def run(ctx):
         raise Infra("the broken design (index version without conflicts) was not caught by ByNumberIsAncestor: %s"
                     % (r.invariant or r.error or "no violation"))
     ctx.cov["design_teeth"] = "index version without the conflict ordinal violates ByNumberIsAncestor (%d states)" % r.distinct
+    # vacuity guards: the bounded model reaches readers above best (best moved to a shorter branch), on an abandoned
+    # sibling one below best, on a descendant of best, and side branches two deep
+    for v, inv in (("above", "NeverReaderAboveBest"), ("sibling", "NeverReaderOnSiblingBelowBest"),
+                   ("descendant", "NeverReaderOnDescendantOfBest"), ("sidedeep", "NeverSideBranchTwoDeep")):
+        r = ctx.tlc(cc.SUB, "MC_ChainIndex", cfg="MC_ChainIndex_vac_%s.cfg" % v, workers=2, timeout=300, count=False,
+                    label="vacuity guard: must be violated")
+        if r.invariant != inv:
+            raise Infra("the bounded model does not reach the shape %s: %s" % (inv, r.invariant or r.error or "no violation"))
 
     # 2. binding demonstration on a recorded tree run
     runs, stats, how = cc.record(ctx, "chainindex", ["-mode", "tree", "-blocks", "12"], "demo", 1, seed_offset=977)
@@ -30,11 +38,14 @@ def run(ctx):
         return
     cc.binding_demo(ctx, runs[0], "c14", [
         ("bynum-swapped", cc.mut_bynum), ("exclude-fork-block-dropped", cc.mut_exclude),
-        ("obsolete-flag-cleared", cc.mut_obsolete), ("lookup-from-wrong-branch", cc.mut_lookup_branch),
+        ("obsolete-flag-cleared", cc.mut_obsolete), ("subscription-obsolete-flag-cleared", cc.mut_sub_obsolete),
+        ("lookup-from-wrong-branch", cc.mut_lookup_branch),
         ("add-deleted", cc.mut_delete("Add")), ("read-deleted", cc.mut_delete("Read"))])
 
     # 3. implementation -> model: random trees on a real Repository, every query from every head after every AddBlock,
-    #    readers from every position; long reorganisations (>= 80 blocks deep) with readers following them
+    #    readers from every position (above best, on abandoned siblings); real websocket subscriptions of every kind
+    #    (block, beat, beat2, transfer, event) from api/subscriptions over the same repository, sharing the handler's
+    #    message caches; long reorganisations (>= 80 blocks deep) with readers following them
     all_stats = []
     n_tree = 24 if q else 400
     runs, stats, how = cc.record(ctx, "chainindex", ["-mode", "tree,treeclean", "-blocks", "12" if q else "15"], "trees", n_tree)
@@ -51,6 +62,21 @@ def run(ctx):
         ctx.sample({"mode": "long", "seed": runs[k][0]["seed"],
                     "reads_with_obsolete": [e for e in runs[k] if e["e"] == "Read" and len(e["out"]) > 3][:1]}, limit=4)
 
+    # 3b. what Repository.AddBlock permits beyond the node's fork choice: a child of best that is not best, readers on
+    #     descendants of best (the design streams the obsolete blocks and stops at best)
+    runs, stats, how = cc.record(ctx, "chainindex", ["-mode", "treefree", "-blocks", "10"], "free", 4 if q else 40, seed_offset=11)
+    acc = cc.validate_runs(ctx, runs, stats, "free", how, batch=4 if q else 8)
+    all_stats += [stats[i] for i in acc]
+    ctx.cov["reads_from_descendant_of_best"] = sum(s["readsFromDescendantOfBest"] for s in stats)
+
+    shapes = {k: sum(s.get(k, 0) for s in all_stats) for k in
+              ("readsFromAboveBest", "readsFromSiblingOneBelow", "addsOnSideBranchTip", "subscriptions",
+               "subscriptionMessages", "subscriptionObsolete")}
+    ctx.cov.update(shapes)
+    if not ctx.violations and not ctx.known_hit:
+        for k, v in shapes.items():
+            if v == 0:
+                raise Infra("the recorded runs never produced the shape %s" % k)
     ctx.cov["evaluations"] = len(all_stats)
     ctx.cov["distinct_nontrivial"] = sum(1 for s in all_stats if s["forkHeights"] >= 1 and s["reorgs"] >= 1
                                          and s["obsoleteFlagged"] >= 1 and s["readersStartedOffCanonical"] >= 1)
@@ -64,11 +90,12 @@ def run(ctx):
     ctx.cov["exhaustive"] = False
     ctx.assumptions += [
         "hashes/signatures are injective oracles; block and tx ids are logged facts (a block id carries its number)",
-        "environment: a block whose parent is the best block is stored with asBest (the node's fork choice: higher total "
-        "score wins), hence best is never a strict ancestor of a known block; without it BlockReader.Read fails with "
-        "'not found' after losing the obsolete list",
+        "no assumption on the fork choice: best may move to any newly stored block (shorter branches included) and a child "
+        "of best may be stored without becoming best (mode treefree; the node itself never does the latter)",
+        "subscriptions run dry after every AddBlock that moves best (the server side reads at a moment the client cannot "
+        "see); mid-walk interleavings of reads with AddBlocks are exercised on chain.BlockReader directly",
         "conflicts passed to AddBlock is Repository.ScanConflicts(height) at that moment, as the node's import path does",
-        "the subscription wrappers of api/subscriptions are thin: blocks pass through api.ConvertBlock in the driver, the "
-        "websocket layer itself is not exercised",
+        "api/subscriptions is exercised through its real HTTP/websocket handlers (httptest server, gorilla client); the "
+        "pending-tx stream is out of scope",
         "exhaustive only inside the bounds of MC_ChainIndex_*.cfg (quick: 7 blocks, thorough: 9 blocks; <= 3 per height, 2 readers); larger trees are sampled",
     ]
